@@ -121,6 +121,11 @@ padded to a multiple of 4, ends.  `Limited f k ra` says the source `ra` delivers
 `f` and nothing beyond its first `k` bytes. -/
 example (w : Written) : tableSpans w = spans w.header.length (w.bodies.map (·.2.length)) := rfl
 example (o l : Nat) (r : List Nat) : spans o (l :: r) = (o, l) :: spans (o + 4 * ((l + 3) / 4)) r := rfl
+/- An empty table laid out last has the span `(end of file, 0)`: with it `C18_truncated` rejects
+every `k` below the end of the file — in particular every cut inside the last table that carries
+data, and inside its padding (`header.Read` probes byte `End − 1` of the last allocation, which
+for an empty last table is the last byte before it). -/
+example : spans 28 [5, 0] = [(28, 5), (36, 0)] := rfl
 example (f : Bytes) (k : Nat) (ra : ReaderAt) : Limited f k ra =
     ∀ off n b, ra off n = .ok b → off + n ≤ k ∧ off + n ≤ f.length ∧ b = (f.drop off).take n := rfl
 
